@@ -127,6 +127,25 @@ func runC15m(tb stat.TB, c c15mCase) {
 					report("reply-malformed-under-concurrency", "client %d: reply %d (proc %d) does not decode as its result type: %v", ci, k, call.proc, derr)
 					return
 				}
+				if call.proc == nfsx.ProcReaddirplus && res.Status == nfsx.OK {
+					// the root never changes: every listing is m0..m<clients-1>, each with the fileid GETATTR reports
+					names := map[string]bool{}
+					for _, e := range res.Entries {
+						names[e.Name] = true
+					}
+					okNames := len(names) == c.Clients && len(res.Entries) == c.Clients
+					for i := 0; i < c.Clients && okNames; i++ {
+						okNames = names[fmt.Sprintf("m%d", i)]
+					}
+					if !okNames {
+						report("reply-carries-another-connections-data", "client %d: READDIRPLUS reply %d lists %d entries %v, the (never changing) root holds m0..m%d", ci, k, len(res.Entries), names, c.Clients-1)
+						return
+					}
+				}
+				if call.proc == nfsx.ProcGetattr && res.Status == nfsx.OK && res.Attr != nil && int(res.Attr.Size) != c.Sizes[ci] {
+					report("reply-carries-another-connections-data", "client %d: GETATTR reply %d reports size %d, this client's file has %d bytes", ci, k, res.Attr.Size, c.Sizes[ci])
+					return
+				}
 				if call.proc == nfsx.ProcRead && res.Status == nfsx.OK && !bytes.Equal(res.Data, contents[ci]) {
 					report("reply-carries-another-connections-data", "client %d: READ reply %d returned %d bytes that are not the content of this client's file (%d bytes)", ci, k, len(res.Data), len(contents[ci]))
 					return
